@@ -83,6 +83,60 @@ Check C13_probe_accept_complete :
   forall c interval tg oracle,
   exists o, btimed_run (bfuel c tg) oracle interval tg (btinit c interval tg) = Some o /\
             baccept_guided c interval tg o = true.
+Check C13_e2e_gate_model :
+  forall idem spec,
+  E2EAttempts.gate_open idem spec = gate (mkConfig idem (Some spec)).
+Check C13_e2e_gate :
+  forall p idem spec cl0 nodes down cs assign frs ls t0 tret margin o co,
+  E2ESpec.e2e_check13 p idem spec cl0 nodes down cs assign frs ls t0 tret margin o co = true ->
+  (idem = false \/ spec = None) ->
+  exists c, cs = [c] /\ E2EAttempts.check_single p idem cl0 nodes down c frs tret o co = true
+            /\ forall t, List.length (E2EAttempts.in_flight t frs) <= 1.
+Check C13_e2e_open :
+  forall p idem spec cl0 nodes down cs assign frs ls t0 tret margin o co max,
+  E2ESpec.e2e_check13 p idem spec cl0 nodes down cs assign frs ls t0 tret margin o co = true ->
+  E2EAttempts.gate_open idem (option_map fst spec) = Some max ->
+  exists interval, spec = Some (max, interval) /\
+    E2ESpec.check_spec p idem cl0 nodes down max interval cs assign frs ls t0 tret margin o co = true.
+Check C13_e2e_schedule :
+  forall p idem cl0 nodes down max interval cs assign frs ls t0 tret margin o co,
+  E2ESpec.check_spec p idem cl0 nodes down max interval cs assign frs ls t0 tret margin o co = true ->
+  let e := E2ESpec.mk_env p idem cl0 nodes down interval cs assign frs t0 tret margin co in
+  E2EAttempts.multi_ok p idem cl0 nodes down max cs assign frs = true
+  /\ (forall t, List.length (E2EAttempts.in_flight t frs) <= 1 + max
+                /\ NoDup (map E2EAttempts.f_node (E2EAttempts.in_flight t frs)))
+  /\ E2ESpec.starts_ok e = true
+  /\ exists s R,
+       run (init max) ls = Some s
+       /\ returned s = Some R
+       /\ spec_returned max (started s) (completions ls) = Some R
+       /\ E2ESpec.rres_match e R o = true
+       /\ List.length cs <= started s <= 1 + max
+       /\ (started s <= List.length cs \/ E2ESpec.e_exhausted e = true)
+       /\ E2ESpec.leftovers_ok e s ls = true
+       /\ E2ESpec.walk e (init max) ls [] = true.
+Check C13_e2e_completions :
+  forall e ls s seen, E2ESpec.walk e s ls seen = true ->
+  forall pre g out post, ls = pre ++ Complete g out :: post ->
+  E2ESpec.complete_ok e g out = true /\
+  exists lo hi, E2ESpec.comp_window e g = Some (lo, hi)
+    /\ (forall x, In x seen -> (x <= hi + E2ESpec.e_margin e)%N)
+    /\ (forall f out2, In (Complete f out2) pre ->
+          exists lo2 hi2, E2ESpec.comp_window e f = Some (lo2, hi2) /\ (lo2 <= hi + E2ESpec.e_margin e)%N).
+Check C13_e2e_timer :
+  forall e ls s seen, E2ESpec.walk e s ls seen = true ->
+  forall pre post s1 s2, ls = pre ++ Timer :: post ->
+  run s pre = Some s1 -> step s1 Timer = Some s2 -> started s1 < started s2 ->
+  forall f out, In (Complete f out) pre ->
+  exists lo hi, E2ESpec.comp_window e f = Some (lo, hi) /\ (lo <= E2ESpec.start_hi e (started s1))%N.
+Check C13_e2e_in_flight :
+  forall bound frs, E2EAttempts.overlap_ok bound frs = true ->
+  forall t, List.length (E2EAttempts.in_flight t frs) <= bound
+            /\ NoDup (map E2EAttempts.f_node (E2EAttempts.in_flight t frs)).
+Check C13_e2e_prop_overlap :
+  forall p idem spec cl0 nodes down cs assign frs ls t0 tret margin o co,
+  E2ESpec.e2e_check13 p idem spec cl0 nodes down cs assign frs ls t0 tret margin o co = true ->
+  E2ESpec.prop_overlap idem (option_map fst spec) frs = true.
 Print Assumptions C13_ignorable_table.
 Print Assumptions C13_bound.
 Print Assumptions C13_result.
@@ -105,3 +159,11 @@ Print Assumptions C13_probe_guided.
 Print Assumptions C13_probe_accept_sound.
 Print Assumptions C13_probe_accept_schedule.
 Print Assumptions C13_probe_accept_complete.
+Print Assumptions C13_e2e_gate_model.
+Print Assumptions C13_e2e_gate.
+Print Assumptions C13_e2e_open.
+Print Assumptions C13_e2e_schedule.
+Print Assumptions C13_e2e_completions.
+Print Assumptions C13_e2e_timer.
+Print Assumptions C13_e2e_in_flight.
+Print Assumptions C13_e2e_prop_overlap.
